@@ -101,8 +101,9 @@ Push(a) == /\ Len(pushed) < MaxPush
 PairFirst == IF Wide THEN OptArgs
              ELSE CoreArgs \cup {a \in OptArgs : a.o # "ECS" \/ (a.scope = 0 /\ a.addr = Rep(Len(a.addr), 255))}
 
-Next == \/ \E a \in OptArgs : pushed = <<>> /\ Push(a)
-        \/ \E a \in CoreArgs : pushed # <<>> /\ pushed[1] \in PairFirst /\ Push(a)
+PushFirst == \E a \in OptArgs : pushed = <<>> /\ Push(a)
+PushMore  == \E a \in CoreArgs : pushed # <<>> /\ pushed[1] \in PairFirst /\ Push(a)
+Next == PushFirst \/ PushMore
 
 Spec == Init /\ [][Next]_vars
 
